@@ -14,7 +14,7 @@ func init() {
 	register(&propDef{
 		ID: "C15",
 		Explanation: "Static conformance of the rate-limit wiring: (R1/R2) in both limiter wrappers every path performs exactly one Take() that precedes exactly one call of the wrapped operation with unchanged arguments whose result is returned; (R3) Take is called only by those wrappers, the writer wrapper declares no read method, and Take is unreachable from the receive path (repo-level reachability; VTA call graph in the thorough tier); " +
-			"(R4) in every function that builds an engine, on the paths where rateCount >= 1 (guard folded at 0 and 1) the writer/scanner reaching the engine is the wrapper around ratelimit.New(rateCount, ratelimit.Per(rateWindow)) with both values from the same configuration; (R5) every packet-scan configuration site passes rateCount/rateWindow from the same-named option fields, which are written only from parseRateLimit of --rate.",
+			"(R4) in every function that builds an engine, on the paths where rateCount >= 1 (guard folded at 0 and 1) the writer/scanner reaching the engine is the wrapper around ratelimit.New(rateCount, ratelimit.Per(rateWindow)) with both values from the same configuration; (R5) every packet-scan configuration site passes rateCount/rateWindow from the same-named option fields, which are written only from parseRateLimit of --rate; (R6) the --rate parser returns the written count and the written window (the C18 index/strconv/window-prefix obligations of parseRateLimit and its helpers re-evaluated).",
 		NotDecided:  []string{"the spacing bound itself (go.uber.org/ratelimit, scheduler)", "the limiter's start-up burst allowance"},
 		Assumptions: []string{"go.uber.org/ratelimit.New(n, Per(w)) spaces Take() calls by w/n"},
 		Run:         runC15,
@@ -28,6 +28,26 @@ func isTakeCall(c *ssa.CallCommon) bool {
 }
 
 func runC15(p *Prog, r *Report) {
+	r.Min("C15.R6", 5)
+	// R6: the configured rate is the written rate - the C18 obligations of the --rate parser re-evaluated
+	// (a window read too short or a count read too large makes probes leave faster than asked)
+	{
+		sub := NewReport("C15", r.Tier)
+		for _, fn := range parserSet(p) {
+			if fn.Name() != "parseRateLimit" && !staticReachedFrom(p, "parseRateLimit", fn) {
+				continue
+			}
+			checkIndexObligations(p, sub, fn, "C15.R6")
+			checkDerefObligations(p, sub, fn, "C15.R6")
+			checkStrconv(p, sub, fn)
+			checkWindowPrefix(p, sub, fn)
+		}
+		for _, o := range sub.Obs {
+			o2 := *o
+			o2.Rule = "C15.R6"
+			r.Obs = append(r.Obs, &o2)
+		}
+	}
 	r.Min("C15.R1", 2)
 	r.Min("C15.R3", 3)
 	r.Min("C15.R4", 4)
@@ -460,3 +480,38 @@ func checkRateOptions(p *Prog, r *Report) {
 }
 
 var _ = token.ADD
+
+// staticReachedFrom: fn is statically called (depth <= 3) from the command-package function of that name.
+func staticReachedFrom(p *Prog, root string, fn *ssa.Function) bool {
+	var start *ssa.Function
+	for _, f := range p.SrcFuncs() {
+		if f.Pkg == p.SPkg("command") && f.Parent() == nil && f.Name() == root {
+			start = f
+		}
+	}
+	if start == nil {
+		return false
+	}
+	seen := map[*ssa.Function]bool{}
+	var walk func(f *ssa.Function, d int) bool
+	walk = func(f *ssa.Function, d int) bool {
+		if f == fn {
+			return true
+		}
+		if d == 0 || seen[f] || f.Blocks == nil {
+			return false
+		}
+		seen[f] = true
+		for _, b := range f.Blocks {
+			for _, in := range b.Instrs {
+				if ci, ok := in.(ssa.CallInstruction); ok {
+					if c := StaticCallee(ci.Common()); c != nil && c.Pkg == f.Pkg && walk(c, d-1) {
+						return true
+					}
+				}
+			}
+		}
+		return false
+	}
+	return walk(start, 3)
+}
